@@ -572,3 +572,124 @@ def c17_8(R):
         R.ok("state_is_closed", sc.name, "state.is_closed(socket_opts.wait_for_last_ack)")
     else:
         R.fail([sc.name, "shape"], "state_is_closed no longer asks the state with the configured wait_for_last_ack", where=sc.where(), instance="state_is_closed")
+
+
+@rule("C17.9", ["C17", "C09", "C04", "C01"], ["E4", "E7"], "a connection starts from the sequence state the handshake fixed",
+      "StreamArgs::new_outgoing (from the SYN-ACK): seq_nr = ack.ack_nr + 1, last_sent_seq_nr = ack.ack_nr, last_consumed_remote_seq_nr = last_sent_ack_nr = ack.seq_nr - 1, state = Established, "
+      "remote_window = ack.wnd_size. StreamArgs::new_incoming (from the SYN): seq_nr = the chosen number, last_sent_seq_nr = that - 1, last_consumed_remote_seq_nr = last_sent_ack_nr = syn.seq_nr, "
+      "remote_window = 0, state = SynReceived. Everything is relative to the received header (no absolute numbers): an off-by-one here shifts every later acknowledgement / sequence number.")
+def c17_9(R):
+    want = {
+        "stream_dispatch::StreamArgs::new_outgoing": {
+            "seq_nr": ("UtpHeader.ack_nr", 1), "last_sent_seq_nr": ("UtpHeader.ack_nr", 0), "last_consumed_remote_seq_nr": ("UtpHeader.seq_nr", -1),
+            "last_sent_ack_nr": ("UtpHeader.seq_nr", -1), "remote_window": ("UtpHeader.wnd_size", 0), "state": "Established"},
+        "stream_dispatch::StreamArgs::new_incoming": {
+            "seq_nr": ("param#1", 0), "last_sent_seq_nr": ("param#1", -1), "last_consumed_remote_seq_nr": ("UtpHeader.seq_nr", 0),
+            "last_sent_ack_nr": ("UtpHeader.seq_nr", 0), "remote_window": ("const", 0), "state": "SynReceived"},
+    }
+    for fn, tab in want.items():
+        b = R.body(fn)
+        aggs = [s for s in b.stmts() if s.rv.kind == "agg" and s.rv.j.get("adt") == "stream_dispatch::StreamArgs"]
+        R.require(len(aggs) == 1, "StreamArgs literal in " + fn.split("::")[-1])
+        s = aggs[0]
+        names = s.rv.j["fields"]
+        for fld, exp in tab.items():
+            op = s.rv.ops[names.index(fld)]
+            if isinstance(exp, str):
+                got = classify(b, op)
+                ok = exp in got
+                desc = got
+            else:
+                base, k = int_affine(b, op)
+                src = base.last_field if base.last_field else ("param#%d" % base.root[1] if base.kind == "param" else ("const" if base.kind == "const" else base.describe()[:30]))
+                if base.kind == "const" and exp[0] == "const":
+                    ok = base.root[1].scalar == exp[1]
+                    desc = "const %s" % base.root[1].scalar
+                else:
+                    ok = (src, k) == exp
+                    desc = "%s%+d" % (src, k)
+            if ok:
+                R.ok("initial-sequence-state", "%s.%s" % (fn.split("::")[-1], fld), desc)
+            else:
+                R.fail([fn, "initial", fld, desc.replace("|", "/")], "%s initialises %s as %s, expected %s" % (fn.split("::")[-1], fld, desc, exp if isinstance(exp, str) else "%s%+d" % exp), where=s.where(), instance="initial-sequence-state")
+
+
+@rule("C17.10", ["C17", "C09", "C04", "C05", "C14"], ["E4", "E7"], "the connection object is wired from the handshake state and the socket's options",
+      "UtpStreamStarter::new builds VirtualSocket with state, seq_nr, last_sent_seq_nr, last_consumed_remote_seq_nr, last_sent_ack_nr, conn_id_send, last_remote_timestamp <- the same-named StreamArgs "
+      "field, last_remote_window <- args.remote_window (also given to the congestion controller), user_tx_segments = Segments::new(args.seq_nr), rto_retransmissions = 0, consumed_but_unacked_bytes = 0; "
+      "SegmentSizes::new gets is_ipv4 from the remote address and link_mtu from the socket's options; the RX / TX buffers get vsock_rx_bufsize / vsock_tx_bufsize_bytes_initial; "
+      "ThisPoll starts with transport_pending = false, restart = false, unsegmented_data = 0.")
+def c17_10(R):
+    sn = R.body("stream_dispatch::UtpStreamStarter::new")
+    aggs = [s for s in sn.stmts() if s.rv.kind == "agg" and s.rv.j.get("adt") == "stream_dispatch::VirtualSocket"]
+    R.require(len(aggs) == 1, "VirtualSocket literal in UtpStreamStarter::new")
+    s = aggs[0]
+    names = s.rv.j["fields"]
+    same = ["state", "seq_nr", "last_sent_seq_nr", "last_consumed_remote_seq_nr", "last_sent_ack_nr", "conn_id_send", "last_remote_timestamp"]
+    n = 0
+    for fld in same + ["last_remote_window"]:
+        src = "StreamArgs." + ("remote_window" if fld == "last_remote_window" else fld)
+        t = trace(sn, s.rv.ops[names.index(fld)])
+        n += 1
+        if t.last_field == src:
+            R.ok("vsock-wiring", fld, "<- args." + src.split(".")[1])
+        else:
+            R.fail([sn.name, "vsock-wiring", fld, "from=" + (t.last_field or t.describe()[:30])], "VirtualSocket.%s is initialised from %s instead of args.%s" % (fld, t.last_field or t.describe()[:30], src.split(".")[1]), where=s.where(), instance="vsock-wiring")
+    for fld in ("rto_retransmissions", "consumed_but_unacked_bytes"):
+        op = s.rv.ops[names.index(fld)]
+        n += 1
+        if op.kind == "const" and op.scalar == 0:
+            R.ok("vsock-wiring", fld, "= 0")
+        else:
+            R.fail([sn.name, "vsock-wiring", fld, "not-zero"], "VirtualSocket.%s does not start at 0" % fld, where=s.where(), instance="vsock-wiring")
+    t = trace(sn, s.rv.ops[names.index("user_tx_segments")])
+    n += 1
+    if t.kind == "call" and call_matches(t.root[1], ("stream_tx_segments::Segments::new",)) and trace(sn, t.root[1].args[0]).last_field == "StreamArgs.seq_nr":
+        R.ok("vsock-wiring", "user_tx_segments", "Segments::new(args.seq_nr)")
+    else:
+        R.fail([sn.name, "vsock-wiring", "user_tx_segments"], "the segment queue does not start at args.seq_nr: the first data segment is numbered differently from the header field seq_nr", where=s.where(), instance="vsock-wiring")
+    for c in sn.calls():
+        if call_matches(c, ("CongestionController::set_remote_window",)):
+            n += 1
+            if trace(sn, c.args[1]).last_field == "StreamArgs.remote_window":
+                R.ok("vsock-wiring", "congestion_controller.rwnd", "<- args.remote_window")
+            else:
+                R.fail([sn.name, "vsock-wiring", "set_remote_window"], "the congestion controller does not start from the window the handshake advertised", where=c.where(), instance="vsock-wiring")
+    for st in sn.stmts():
+        if st.rv.kind == "agg" and st.rv.j.get("adt") == "mtu::SegmentSizesConfig":
+            nm = st.rv.j["fields"]
+            t1 = trace(sn, st.rv.ops[nm.index("is_ipv4")], through_casts=False)
+            t2 = trace(sn, st.rv.ops[nm.index("link_mtu")])
+            n += 2
+            v4 = t1.kind == "call" and (t1.root[1].resolved or "").endswith("SocketAddr::is_ipv4") and trace(sn, t1.root[1].args[0]).kind == "param" and trace(sn, t1.root[1].args[0]).root[1] == 2
+            if v4:
+                R.ok("vsock-wiring", "segment_sizes.is_ipv4", "<- remote.is_ipv4()")
+            else:
+                R.fail([sn.name, "vsock-wiring", "is_ipv4"], "the IP header size used for segment sizing does not come from the remote address family: datagrams to IPv6 peers can exceed the link MTU by 20 bytes", where=st.where(), instance="vsock-wiring")
+            if t2.last_field == "ValidatedSocketOpts.link_mtu":
+                R.ok("vsock-wiring", "segment_sizes.link_mtu", "<- opts.link_mtu")
+            else:
+                R.fail([sn.name, "vsock-wiring", "link_mtu"], "segment sizing does not use the configured link MTU", where=st.where(), instance="vsock-wiring")
+        if st.rv.kind == "agg" and st.rv.j.get("adt") == "stream_dispatch::ThisPoll":
+            nm = st.rv.j["fields"]
+            for fld in ("transport_pending", "restart", "unsegmented_data"):
+                op = st.rv.ops[nm.index(fld)]
+                n += 1
+                if op.kind == "const" and op.scalar == 0:
+                    R.ok("vsock-wiring", "this_poll." + fld, "= 0 / false")
+                else:
+                    R.fail([sn.name, "vsock-wiring", "this_poll." + fld], "ThisPoll.%s does not start cleared" % fld, where=st.where(), instance="vsock-wiring")
+    for c in sn.calls():
+        if call_matches(c, ("stream_rx::UserRx::build",)):
+            n += 1
+            if trace(sn, c.args[0]).last_field == "ValidatedSocketOpts.vsock_rx_bufsize":
+                R.ok("vsock-wiring", "rx buffer", "<- opts.vsock_rx_bufsize")
+            else:
+                R.fail([sn.name, "vsock-wiring", "rx-bufsize"], "the receive buffer is not sized from vsock_rx_bufsize", where=c.where(), instance="vsock-wiring")
+        if call_matches(c, ("stream_tx::UserTx::new",)):
+            n += 1
+            if trace(sn, c.args[0]).last_field == "ValidatedSocketOpts.vsock_tx_bufsize_bytes_initial":
+                R.ok("vsock-wiring", "tx buffer", "<- opts.vsock_tx_bufsize_bytes_initial")
+            else:
+                R.fail([sn.name, "vsock-wiring", "tx-bufsize"], "the transmit buffer is not sized from vsock_tx_bufsize_bytes_initial", where=c.where(), instance="vsock-wiring")
+    R.floor("wired fields of the connection object", n, 18)
